@@ -28,6 +28,10 @@ CHECKS = {
    text="Theorems for every output text, every Unicode classification and both include-faulty settings: each of the six built-in adapters (seven parse variants) returns a reject or a non-empty list of data points with exactly one 'total', last, and no other exception; a failure marker reached before an accepting exit rejects as invalid unless faulty results were requested; generic version for any adapter written with the common loop. The regular expressions are regenerated from the source on every run; the hand-written loops are tied to the real parse_data by grammar-guided near-misses, splices and random strings, and the regex engine is compared with CPython's re.",
    note="Trusted: Gallina regex engine + tr_regex.py (both validated against re each run), CPython float()/int() on extracted tokens, palette of non-ASCII characters for the executable instance (theorems hold for arbitrary classes).",
    technique="Rocq proof (induction over lines, generic in the classifier) + translated regular expressions + differential correspondence"),
+ "C17": dict(
+   text="Theorems for every server behaviour (a function from request number to Ack / refused / 5xx / 4xx) and every sequence of events (data point added, send_data() at any time, close()): conservation (acknowledged + cached = handed over, as multisets), at most once, retention on failure, exactly once if the final transmission succeeds; the retry policy of one request (at most five tries, none after 4xx); API v1 payload round trip (decode (encode data) = data for arbitrary criteria sets). The hand-written model is tied to the real _ReBenchDB persistence and ReBenchDB connector by exhaustive answer-pattern sequences, random operation sequences, whole in-process sessions with reloaded and measured data (operation sequence observed at the interface), and to the two payload converters on generated data point sets.",
+   note="PARTIAL for API v2: encode_v2 is modelled and compared with convert_data_to_api_20_format and an independent decoder; its round trip is not proved. urlopen, sleep and the 30 s clock are scripted at ReBenchDB._send_payload / rebenchdb.sleep / persistence.time; no real socket is used.",
+   technique="Rocq proof (invariant by induction over the event list; table invariant for the criteria index) + exhaustive and random operation-sequence correspondence"),
  "C01": dict(
    text="Theorem: whenever a typed configuration and selection compile, the resulting list has no duplicates and contains exactly the declaratively specified runs (selected experiments x executions x the execution's suites x benchmarks x effective cores x input sizes x variable values x tags, kept iff every filter group has a matching filter). The hand-written compilation model is tied to the real Configurator.get_runs() by generated typed configurations x selections compared as sets of full identity keys, and to an independent reference enumeration.",
    note="YAML loading and pykwalify outside the model (typed AST in). Python == identifications beyond bool~int (integral floats) outside the generated domain. Trusted: the harness's projection of RunId objects to identity keys.",
